@@ -726,6 +726,16 @@ theorem C02_instance_step_is_source (frm upto step : Nat) (hs : 1 ≤ step) (dur
       instanceStepTree frm upto step dur :=
   Pandora.Bridge.C02IStep.instanceStep_bridge frm upto step hs dur
 
+/-- **`step` of the source is a composite of const parts** (`Gen/Schedule.lean` re-translates step.go on every check):
+one const part when from = to, otherwise `NewComposite` of the const parts with the rates from, from+step, … ≤ to (the
+float loop of the source), each lasting `duration` — a tree of the kind `C02_tree_refines` is about. -/
+theorem C02_step_is_source (rFrom rTo : ℝ) (step duration : ℤ) :
+    Pandora.Bridge.C02IStep.toTree (Pandora.Gen.Schedule.NewStep rFrom rTo step duration) =
+      if rFrom = rTo then Pandora.Bridge.C02IStep.toTree (Pandora.Gen.Schedule.NewConst rFrom duration)
+      else Tree.comp ((Pandora.Go.loopLE rFrom rTo ((step : ℤ) : ℝ)).map
+        (fun i => Pandora.Bridge.C02IStep.toTree (Pandora.Gen.Schedule.NewConst i duration))) :=
+  Pandora.Bridge.C02IStep.step_bridge rFrom rTo step duration
+
 /-! ## round 3: huge token counts, machine integers, the inside of a leaf -/
 
 open Pandora.Proofs.C02Huge Pandora.Proofs.C02LeafPar Pandora.Proofs.C02Width Pandora.Model.C02.LeafPar in
@@ -767,6 +777,20 @@ theorem C02_no_overflow :
    fun acc unknown l h1 h2 h3 h4 => Pandora.Bridge.C02Src.loopBodyW_eq acc unknown l h1 h2 h3 h4,
    fun n la left started h1 h2 h3 h4 h5 => Pandora.Bridge.C02Src.leftDecideW_eq n la left started h1 h2 h3 h4 h5,
    fun pss h x hx => ⟨Pandora.Proofs.C02Width.sufsP_bounds pss x hx, Pandora.Proofs.C02Width.sufsP_fits pss h x hx⟩⟩
+
+/-- **`Next` of the concurrent model is `compositeSchedule.Next` of the source, section by section** (`Gen/C02Src.lean`
+re-translates the method on every check, control flow and data flow as they are: Go variables are Lean variables of the
+same scope): before `RLock` it only sets the started flag; from `RLock` to the return or to the point before `Lock` it
+is `nextReader` (the child call, the token or — for the last part — the finish time returned as they are, otherwise
+the finish time and `len(s.scheds)` carried over); from `Lock` on it is `nextWriter` (who shifted is re-checked; a token
+of the new head, or the retry; `startNext` with the finish time carried over; the retry on a token-less part). -/
+theorem C02_next_is_source {σ : Type} (ops : Ops σ) :
+    Pandora.Gen.C02Src.compositeSchedule_Next_prologue = ["s.started.Store(true)"] ∧
+    (∀ (s : Sh σ) (now : Int), Pandora.Gen.C02Src.compositeSchedule_Next_reader ops s now = nextReader ops s now) ∧
+    (∀ (s : Sh σ) (tx : Int) (seen : Nat) (now : Int),
+      Pandora.Gen.C02Src.compositeSchedule_Next_writer ops s tx seen now = nextWriter ops s tx seen now) :=
+  ⟨Pandora.Bridge.C02Src.next_prologue_is_source, Pandora.Bridge.C02Src.nextReader_is_source ops,
+   Pandora.Bridge.C02Src.nextWriter_is_source ops⟩
 
 /-- **Inside a leaf, any interleaving.**  A leaf — ANY object that refines the flat spec: the `doAt` leaf, the
 unlimited leaf, the run leaf — whose `Next` is the once (`startOnce.Do`: start at the clock reading if not started)
